@@ -9,7 +9,7 @@ from pathlib import Path
 
 from harness import common
 from harness.common import Ck, VERIF
-from translate import c15_container, c15_frame, c15_pixel
+from translate import c15_access, c15_container, c15_frame, c15_pixel
 
 MANIFEST = dict(
     technique='Rocq proof (symbolic bit-level evaluation of the translated pixel codecs proved sound, so the round-trip laws hold '
@@ -66,6 +66,8 @@ IMPORTS = ['Coq.NArith.NArith', 'Coq.ZArith.ZArith', 'Coq.Lists.List', 'SV.Fmt.V
            'SV.Gen.PixelCodecs_gen', 'SV.Gen.VtfLayout_gen']
 IMPORTS_CONT = ['Coq.NArith.NArith', 'Coq.ZArith.ZArith', 'Coq.Lists.List', 'Coq.Strings.String', 'Coq.Bool.Bool', 'SV.Bin.Struct',
                 'SV.Fmt.VtfContainer', 'SV.Fmt.VtfWholeFile', 'SV.Gen.VtfContainer_gen']
+IMPORTS_ACCESS = ['Coq.ZArith.ZArith', 'Coq.Lists.List', 'Coq.Strings.String', 'Coq.Bool.Bool', 'SV.Fmt.VtfLayout', 'SV.Fmt.VtfAccess',
+                  'SV.Gen.VtfLayout_gen', 'SV.Gen.VtfAccess_gen']
 IMPORTS_FRAME = ['Coq.Lists.List', 'Coq.Strings.String', 'Coq.Bool.Bool', 'SV.Fmt.VtfFrameSM', 'SV.Gen.VtfFrameSM_gen']
 
 # format (lower case) -> (specification of load-after-save, canonical stored form)
@@ -844,6 +846,316 @@ def search_bounds(ck: Ck) -> None:
                         fr.copy_from(data)
 
 
+
+# ================================================================================================ pixel access paths (round 4)
+def _slug(s: str) -> str:
+    import re
+    return re.sub(r'_+', '_', re.sub(r'[^A-Za-z0-9]+', '_', s)).strip('_')
+
+
+def access_obligations(info: dict) -> dict[str, str]:
+    """one named boolean per site of the census (Gen/VtfAccess_gen.v)"""
+    obs: dict[str, str] = {}
+    for i, (name, _r, _c, _k) in enumerate(info['paths']):
+        obs[f'pixel_path_{_slug(name)}_has_rows_height_columns_width_4_bytes'] = f'path_ok (nth {i} gen_paths transposed_path)'
+    for i, (name, _f) in enumerate(info['allocs']):
+        obs[f'pixel_array_allocated_in_{_slug(name.split(":")[0])}_{i}_has_4_width_height_bytes'] = f'alloc_ok 4 (snd (nth {i} gen_allocs (EmptyString, nil)))'
+    for i, (name, _a) in enumerate(info['guards']):
+        obs[f'whole_array_{_slug(name)}_only_between_frames_of_equal_width_and_height'] = f'copy_guard_ok (snd (nth {i} gen_copy_guards (EmptyString, nil)))'
+    obs['every_pixel_path_of_the_census_has_the_canonical_address_map'] = \
+        '(forallb path_ok gen_paths && negb (Nat.eqb (List.length gen_paths) 0))%bool'
+    obs['every_pixel_array_allocation_has_4_width_height_bytes'] = '(forallb (fun a => alloc_ok 4 (snd a)) gen_allocs && negb (Nat.eqb (List.length gen_allocs) 0))%bool'
+    obs['getitem_rejects_nothing_inside_the_frame'] = 'bounds_exact getitem_reject'
+    obs['setitem_rejects_nothing_inside_the_frame'] = 'bounds_exact setitem_reject'
+    return obs
+
+
+def _colour(x: int, y: int, salt: int) -> tuple[int, int, int, int]:
+    return ((x * 16 + 3 + salt) % 256, (y * 16 + 5 + 3 * salt) % 256, (x * 7 + y * 11 + salt) % 256, (255 - x - 2 * y - salt) % 256)
+
+
+class _FakeWx:
+    """stand-in for wxPython (not installed): records the size each image is made with and the RGB bytes it is given"""
+    BitmapBufferFormat_RGB = 1
+
+    def __init__(self) -> None:
+        self.made: list = []
+        outer = self
+
+        class Image:
+            def __init__(self, w, h):
+                self.size, self.buf = (w, h), bytearray(3 * w * h)
+                outer.made.append(self)
+
+            def GetDataBuffer(self):
+                return self.buf
+
+        class Bitmap:
+            def __init__(self, w, h):
+                self.size, self.buf = (w, h), None
+                outer.made.append(self)
+
+            def CopyFromBuffer(self, buf, fmt):
+                self.buf = bytes(buf)
+        self.Image, self.Bitmap = Image, Bitmap
+
+
+def _with_alarm(seconds: int, fn):
+    """run fn(); a call into the implementation that does not come back is a failing input, not a hung check"""
+    import signal
+
+    def onalarm(signum, frame):
+        raise TimeoutError(f'no result after {seconds}s')
+    old = signal.signal(signal.SIGALRM, onalarm)
+    signal.alarm(seconds)
+    try:
+        return fn()
+    finally:
+        signal.alarm(0)
+        signal.signal(signal.SIGALRM, old)
+
+
+def paths_case(w: int, h: int, salt: int = 0) -> list[tuple[str, str]]:
+    """Every way of writing the pixels of a w x h frame, every way of reading them: all must use the address map
+    byte 4*(y*w + x) + c for (x, y, c) and accept exactly [0,w) x [0,h)."""
+    import sys
+    import tkinter
+    from array import array
+    from srctools.vtf import VTF, ImageFormats
+    out: list[tuple[str, str]] = []
+    size = f'{w}x{h}'
+    want = {(x, y): _colour(x, y, salt) for y in range(h) for x in range(w)}
+    flat = bytes(v for y in range(h) for x in range(w) for v in want[x, y])
+
+    def new_frame():
+        vtf = VTF(w, h, fmt=ImageFormats.RGBA8888, thumb_fmt=ImageFormats.RGB888)
+        # known finding mipmap-count-off-by-one: a texture with a side of 1 declares 0 levels and would be saved without
+        # any frame; declare the level that exists, so that the save/read path can be exercised on 1xN and Nx1 as well
+        vtf.mipmap_count = max(vtf.mipmap_count, 1)
+        return vtf, vtf.get()
+
+    # ---------------------------------------------------------------- writers
+    def w_setitem(fr):
+        for (x, y), px in want.items():
+            fr[x, y] = px
+
+    def w_buffer(fr):
+        mv = memoryview(fr)
+        bad = []
+        for (x, y), px in want.items():
+            for c, v in enumerate(px):
+                try:
+                    mv[y, x, c] = v
+                except IndexError:
+                    bad.append((x, y, c))
+        mv.release()
+        if bad:
+            out.append(('pixel-path-buffer-rejects-coordinate-inside-the-frame',
+                        f'{size}: memoryview(frame)[y, x, c] = v raises IndexError for {len(bad)} of {4 * w * h} coordinates inside the frame, e.g. (x, y, c) = {bad[0]}'))
+
+    def w_copy_bytes(fr):
+        fr.copy_from(flat)
+
+    def w_copy_frame(fr):
+        _, other = new_frame()
+        other._data = array('B', flat)
+        fr.copy_from(other)
+
+    def w_file(fr):
+        vtf2, f2 = new_frame()
+        f2._data = array('B', flat)
+        bio = io.BytesIO()
+        vtf2.save(bio)
+        back = VTF.read(io.BytesIO(bio.getvalue()))
+        fr.copy_from(back.get())        # Frame.load of a lazily read frame, then a frame-to-frame copy
+
+    writers = {'setitem': w_setitem, 'buffer': w_buffer, 'copy_from_bytes': w_copy_bytes, 'copy_from_frame': w_copy_frame,
+               'file_load': w_file}
+
+    # ---------------------------------------------------------------- readers: -> {(x, y): tuple of 3 or 4 channels}
+    def r_getitem(fr):
+        return {(x, y): tuple(fr[x, y]) for (x, y) in want}
+
+    def r_buffer(fr):
+        mv = memoryview(fr)
+        if mv.shape != (h, w, 4):
+            out.append(('pixel-path-buffer-shape-is-not-height-width-4', f'{size}: memoryview(frame).shape == {mv.shape}, expected {(h, w, 4)}'))
+        res, bad = {}, []
+        for (x, y) in want:
+            try:
+                res[x, y] = tuple(mv[y, x, c] for c in range(4))
+            except IndexError:
+                bad.append((x, y))
+        if bad:
+            out.append(('pixel-path-buffer-rejects-coordinate-inside-the-frame',
+                        f'{size}: memoryview(frame)[y, x, c] raises IndexError for {len(bad)} of {w * h} pixels inside the frame, e.g. (x, y) = {bad[0]}'))
+        for (x, y) in ((w, 0), (0, h), (w, h - 1), (w - 1, h)):
+            try:
+                mv[y, x, 0]
+            except IndexError:
+                continue
+            out.append(('pixel-path-buffer-accepts-coordinate-outside-the-frame',
+                        f'{size}: memoryview(frame)[y={y}, x={x}, 0] is accepted (the frame has x < {w}, y < {h})'))
+            break
+        try:
+            mv[0, 0, 4]
+            out.append(('pixel-path-buffer-accepts-coordinate-outside-the-frame', f'{size}: memoryview(frame)[0, 0, 4] is accepted'))
+        except IndexError:
+            pass
+        return res
+
+    def r_buffer_bytes(fr):
+        b = bytes(memoryview(fr))
+        return {(x, y): tuple(b[4 * (y * w + x):4 * (y * w + x) + 4]) for (x, y) in want} if len(b) == 4 * w * h else {}
+
+    def r_pil(fr):
+        img = fr.to_PIL()
+        if img.size != (w, h) or img.mode != 'RGBA':
+            out.append(('pixel-path-to_PIL-size-is-not-width-height', f'{size}: to_PIL() gives a {img.mode} image of size {img.size}'))
+        res = {}
+        for (x, y) in want:
+            try:
+                res[x, y] = tuple(img.getpixel((x, y)))
+            except IndexError:
+                pass
+        return res
+
+    def r_tk(fr):
+        got = {}
+        orig = tkinter.PhotoImage
+        try:
+            tkinter.PhotoImage = lambda **kw: got.update(kw) or 'photo'       # no display here: take what would be shown
+            fr.to_tkinter()
+        finally:
+            tkinter.PhotoImage = orig
+        data = got.get('data', b'')
+        head, _, raster = data.partition(b'\n')
+        parts = head.split()
+        if len(parts) != 4 or parts[0] != b'P6' or (int(parts[1]), int(parts[2])) != (w, h) or parts[3] != b'255' or len(raster) != 3 * w * h:
+            out.append(('pixel-path-to_tkinter-ppm-size-is-not-width-height', f'{size}: to_tkinter() hands tkinter a PPM with header {head!r} and {len(raster)} raster bytes'))
+            return {}
+        return {(x, y): tuple(raster[3 * (y * w + x):3 * (y * w + x) + 3]) for (x, y) in want}
+
+    def r_wx(method):
+        def go(fr):
+            fake = _FakeWx()
+            had = sys.modules.get('wx')
+            sys.modules['wx'] = fake
+            try:
+                getattr(fr, method)()
+            finally:
+                if had is None:
+                    sys.modules.pop('wx', None)
+                else:
+                    sys.modules['wx'] = had
+            if len(fake.made) != 1 or fake.made[0].size != (w, h) or fake.made[0].buf is None or len(fake.made[0].buf) != 3 * w * h:
+                out.append((f'pixel-path-{method}-size-is-not-width-height',
+                            f'{size}: {method}() makes wx images of size {[m.size for m in fake.made]}'))
+                return {}
+            b = bytes(fake.made[0].buf)
+            return {(x, y): tuple(b[3 * (y * w + x):3 * (y * w + x) + 3]) for (x, y) in want}
+        return go
+
+    def r_saved(fr_vtf):
+        def go(fr):
+            bio = io.BytesIO()
+            fr_vtf.save(bio)
+            back = VTF.read(io.BytesIO(bio.getvalue()))
+            bf = back.get()
+            if (bf.width, bf.height) != (w, h):
+                out.append(('pixel-path-saved-frame-has-other-dimensions', f'{size}: read back as {bf.width}x{bf.height}'))
+                return {}
+            return {(x, y): tuple(bf[x, y]) for (x, y) in want}
+        return go
+
+    def compare(name_w: str, name_r: str, got: dict, raw_ok: bool) -> None:
+        wrong = [(x, y) for (x, y) in want if got.get((x, y)) != want[x, y][:len(got.get((x, y), ()) or (0, 0, 0, 0))]]
+        if not wrong:
+            return
+        x, y = wrong[0]
+        if not raw_ok:
+            key, who = f'pixel-path-write-{name_w}-lands-elsewhere', f'written through {name_w}'
+        else:
+            key, who = f'pixel-path-read-{name_r}-reads-other-pixels', f'read through {name_r}'
+        out.append((key, f'{size}: pixels written through {name_w} and read through {name_r}: {len(wrong)} of {w * h} differ ({who} is off), '
+                         f'e.g. (x, y) = ({x}, {y}) gives {got.get((x, y))}, written {want[x, y]}'))
+
+    for name_w, wfn in writers.items():
+        try:
+            vtf, fr = new_frame()
+            _with_alarm(20, lambda: wfn(fr))
+            raw = bytes(fr._data) if fr._data is not None else b''
+        except Exception as e:      # noqa: BLE001 - whatever a fault makes the implementation raise is a finding
+            out.append((f'pixel-path-write-{name_w}-raises-{type(e).__name__}', f'{size}: writing every pixel through {name_w}: {type(e).__name__}: {e}'))
+            continue
+        if len(raw) != 4 * w * h:
+            out.append(('pixel-array-length-is-not-4-width-height', f'{size}: after writing through {name_w} the pixel array has {len(raw)} bytes'))
+            continue
+        raw_ok = raw == flat
+        if not raw_ok:
+            got = {(x, y): tuple(raw[4 * (y * w + x):4 * (y * w + x) + 4]) for (x, y) in want}
+            compare(name_w, 'the array itself', got, False)
+        readers = {'getitem': r_getitem, 'buffer': r_buffer, 'buffer_bytes': r_buffer_bytes, 'to_PIL': r_pil, 'to_tkinter': r_tk,
+                   'to_wx_image': r_wx('to_wx_image'), 'to_wx_bitmap': r_wx('to_wx_bitmap'), 'save_read': r_saved(vtf)}
+        for name_r, rfn in readers.items():
+            try:
+                got = _with_alarm(20, lambda: rfn(fr))
+            except Exception as e:      # noqa: BLE001
+                out.append((f'pixel-path-read-{name_r}-raises-{type(e).__name__}', f'{size}: reading every pixel through {name_r} (written through {name_w}): {type(e).__name__}: {e}'))
+                continue
+            if raw_ok and got:
+                compare(name_w, name_r, got, True)
+    # ---------------------------------------------------------------- allocation sizes and the size test of copy_from(Frame)
+    for how in ('load', 'fill', 'copy_from', 'rescale_from'):
+        try:
+            vtf, fr = new_frame()
+            fr._data = None
+            if how == 'load':
+                fr.load()
+            elif how == 'fill':
+                fr.fill(1, 2, 3, 4)
+            elif how == 'copy_from':
+                fr.copy_from(flat)
+            else:
+                big = VTF(2 * w, 2 * h).get()
+                big.fill(9, 9, 9, 9)
+                fr.rescale_from(big)
+            if fr._data is None or len(fr._data) != 4 * w * h:
+                out.append(('pixel-array-length-is-not-4-width-height', f'{size}: {how}() on a frame without pixels makes an array of {None if fr._data is None else len(fr._data)} bytes'))
+        except Exception as e:      # noqa: BLE001
+            out.append((f'pixel-path-{how}-raises-{type(e).__name__}', f'{size}: {how}() on a frame without pixels: {type(e).__name__}: {e}'))
+    for (w2, h2) in {(h, w), (w, 2 * h), (2 * w, h), (2 * w, max(h // 2, 1)), (max(w // 2, 1), 2 * h)} - {(w, h)}:
+        _, fr = new_frame()
+        fr.copy_from(flat)
+        other = VTF(w2, h2).get()
+        other.fill(7, 7, 7, 7)
+        try:
+            fr.copy_from(other)
+        except ValueError:
+            continue
+        except Exception as e:      # noqa: BLE001
+            out.append((f'pixel-path-copy_from-raises-{type(e).__name__}', f'{size}: copy_from(a {w2}x{h2} frame): {type(e).__name__}: {e}'))
+            continue
+        out.append(('copy-from-frame-of-another-size-accepted', f'a {size} frame accepts copy_from(a {w2}x{h2} frame); its array now has {len(fr._data)} bytes'))
+    return out
+
+
+PATH_SHAPES = [(1, 1), (2, 1), (1, 2), (4, 1), (1, 4), (8, 1), (1, 8), (2, 8), (8, 2), (4, 2), (2, 4), (16, 2), (4, 4), (2, 16), (8, 4)]
+
+
+def search_paths(ck: Ck) -> None:
+    for k, (w, h) in enumerate(PATH_SHAPES):
+        salt = ck.rng.randrange(256)
+        ck.count('pixel_path_cases', 5 * 8)
+        ck.hist('pixel_path_shapes', 'square' if w == h else 'wide' if w > h else 'tall')
+        if w != h:
+            ck.seen(('paths', w, h, salt))
+        if k < 3:
+            ck.sample({'paths': [w, h, salt]})
+        for key, what in paths_case(w, h, salt):
+            ck.violation(key, what, {'paths': [w, h, salt]})
+
+
 def search_filters(ck: Ck) -> None:
     from srctools.vtf import VTF, FilterMode
     modes = [FilterMode.UPPER_LEFT, FilterMode.UPPER_RIGHT, FilterMode.LOWER_LEFT, FilterMode.LOWER_RIGHT, FilterMode.BILINEAR]
@@ -1554,10 +1866,11 @@ def run(ck: Ck) -> None:
     ok2 = ck.translate('VtfLayout_gen', c15_pixel.translate_layout)
     ok3 = ck.translate('VtfFrameSM_gen', c15_frame.translate_frame)
     ok4 = ck.translate('VtfContainer_gen', c15_container.translate_container)
+    ok5 = ck.translate('VtfAccess_gen', c15_access.translate_access)
     cod = None
     if ok1:
         cod, _ = c15_pixel.codecs_ir()
-    built = ok1 and ok2 and ok3 and ok4 and ck.build(['Props/C15.vo'])
+    built = ok1 and ok2 and ok3 and ok4 and ok5 and ck.build(['Props/C15.vo'])
     if built:
         ck.theorems('Props/C15.v')
         obs: dict[str, str] = {}
@@ -1602,11 +1915,13 @@ def run(ck: Ck) -> None:
         ck.instance_obligations(IMPORTS, obs)
         ck.instance_obligations(IMPORTS_FRAME, FRAME_OBS, name='inst_frame')
         ck.instance_obligations(IMPORTS_CONT, CONT_OBS, name='inst_cont')
+        ck.instance_obligations(IMPORTS_ACCESS, access_obligations(ck.extra['translated']['VtfAccess_gen']), name='inst_access')
         corr_container(ck)
         corr_codecs(ck, cod)
     corr_frames(ck, bool(built))
     search_codecs(ck)
     search_bounds(ck)
+    search_paths(ck)
     search_filters(ck)
     search_files(ck)
     search_cube_override(ck)
@@ -1661,10 +1976,18 @@ def run(ck: Ck) -> None:
             ck.explain('instance:cubemaps_have_six_sides')
             ck.explain('instance:save_and_read_loop_nests')
             ck.explain('instance:save_and_read_walk')
+        if k.startswith(('pixel-path-', 'pixel-array-', 'copy-from-frame-')):
+            ck.explain('instance:pixel_path_')
+            ck.explain('instance:pixel_array_')
+            ck.explain('instance:whole_array_')
+            ck.explain('instance:every_pixel_')
+            ck.explain('translate:VtfAccess_gen')
         if k.startswith('frame-getitem'):
             ck.explain('instance:getitem_')
+            ck.explain('instance:every_pixel_path')
         if k.startswith('frame-setitem'):
             ck.explain('instance:setitem_')
+            ck.explain('instance:every_pixel_path')
         if k.startswith(('generated-mipmap', 'mip-dimensions')):
             ck.explain('instance:bilinear_')
             ck.explain('instance:nearest_')
@@ -1721,6 +2044,10 @@ def replay(data: dict) -> int:
     if 'history' in r:
         base, n, levels = history_base(r['seed'])
         for k, w in check_history(base, n, levels, r['history']):
+            print(k, '::', w)
+        return 0
+    if 'paths' in r:
+        for k, w in paths_case(*r['paths']):
             print(k, '::', w)
         return 0
     if 'bounds' in r:
